@@ -429,6 +429,18 @@ def compare_wire(rec: dict, text: str, sess: dict, msgs: list, sig: str) -> None
 # ---------------------------------------------------------------------------- route-text
 
 
+def parse_signature(form: str, culprit: str, case: dict, exc: BaseException) -> str:
+    """the root cause of an exception out of the parser
+
+    When the clause at fault is the one the generator pushed beyond its bound, the bound names the root cause (a missing
+    or wrong check on that value; where the value happens to blow up depends on the value); otherwise the innermost exabgp frame does.
+    """
+    m = case['mutation']
+    if m and case['fits'] is not True and culprit.split('+')[0] == m['field']:
+        return f'parse:{form}:{m["field"]}:{m["what"]}:{type(exc).__name__}'
+    return exception_signature(f'parse:{form}:{culprit}', exc)
+
+
 def extensive(route) -> str:
     try:
         return route.extensive()[:120]
@@ -499,7 +511,7 @@ def _check_route(case: dict) -> dict:
             case, out = direct, again
     if out.kind == 'exception':
         culprit, minimal, _ = isolate(case, attempt_route, out)
-        raise violation(exception_signature(f'parse:{form}:{culprit}', out.exc), f'{out.exc!r} for "{minimal[:300]}" ({describe(case)}; whole text "{shown}"){note}') from out.exc  # type: ignore[arg-type]
+        raise violation(parse_signature(form, culprit, case, out.exc), f'{out.exc!r} at {innermost_repo_frame(out.exc)} for "{minimal[:300]}" ({describe(case)}; whole text "{shown}"){note}') from out.exc  # type: ignore[arg-type]
     self_other_afi = case['afi'] == 2 and entry.startswith('config') and any(c[1] == 'next-hop self' for c in cl)
     if out.kind in ('unlocated', 'refused') and self_other_afi and 'next-hop self' in out.reason:
         # documented: next-hop self needs a transport address of the family of the route (the file is for an IPv4 session)
